@@ -1450,16 +1450,27 @@ class GroupBy:
 
         group_index = self._result_index[self._labels_argsort]
         if mask is not None:
-            group_index = group_index[[len(arr) > 0 for arr in array_splits[0]]]
+            non_empty = np.array([len(arr) > 0 for arr in array_splits[0]], dtype=bool)
         else:
-            group_index = group_index[group_counts > 0]
+            non_empty = group_counts > 0
+        group_index = group_index[non_empty]
 
         if np.ndim(results_per_value[0][0]) == 0:
             # safe to assume it's a scalar value function
             arrays = map(np.array, results_per_value)
             if transform:
                 self._unify_group_key_chunks(keep_chunked=False)
-                arrays = [arr[self.group_ikey] for arr in arrays]
+                # there is one result per non-empty group, in the order of group_index:
+                # put them back in the order of the group codes before broadcasting.
+                # The extra last slot serves null keys (code -1) and empty groups.
+                codes = np.arange(self.ngroups)[self._labels_argsort][non_empty]
+
+                def broadcast(arr):
+                    by_code = np.full(self.ngroups + 1, np.nan)
+                    by_code[codes] = arr
+                    return by_code[self.group_ikey]
+
+                arrays = [broadcast(arr) for arr in arrays]
                 index = (
                     common_index
                     if common_index is not None
